@@ -2,7 +2,7 @@
     not only the frozen model -- is run against the implementation (a translator bug is a
     model bug). *)
 From Coq Require Extraction ExtrOcamlBasic.
-From HV Require Gen.GData Gen.GInt Gen.GTable Gen.GHuff.
+From HV Require Gen.GData Gen.GInt Gen.GTable Gen.GHuff Gen.GDecoder Gen.GEncoder.
 Extraction Language OCaml.
 Set Extraction KeepSingleton.
 Separate Extraction
@@ -10,4 +10,11 @@ Separate Extraction
   GInt.encode_integer GInt.decode_integer
   GTable.table_entry_size GTable.HeaderTable_add GTable.HeaderTable_set_maxsize
   GTable.HeaderTable_get_by_index GTable.HeaderTable_search
-  GHuff.HuffmanEncoder_encode GHuff.decode_huffman.
+  GHuff.HuffmanEncoder_encode GHuff.decode_huffman
+  GDecoder._unicode_if_needed GDecoder.Decoder_header_table_size GDecoder.Decoder_set_header_table_size
+  GDecoder.Decoder__assert_valid_table_size GDecoder.Decoder__update_encoding_context
+  GDecoder.Decoder__decode_indexed GDecoder.Decoder__decode_literal
+  GDecoder.Decoder__decode_literal_no_index GDecoder.Decoder__decode_literal_index GDecoder.Decoder_decode
+  GEncoder.Encoder_header_table_size GEncoder.Encoder_set_header_table_size
+  GEncoder.Encoder__encode_indexed GEncoder.Encoder__encode_literal GEncoder.Encoder__encode_indexed_literal
+  GEncoder.Encoder__encode_table_size_change GEncoder.Encoder_add.
